@@ -16,6 +16,8 @@ import (
 	"verif/ref/sidetree"
 
 	"github.com/trustbloc/sidetree-go/pkg/api/operation"
+	"github.com/trustbloc/sidetree-go/pkg/commitment"
+	libjws "github.com/trustbloc/sidetree-go/pkg/jws"
 	"github.com/trustbloc/sidetree-go/pkg/api/protocol"
 	"github.com/trustbloc/sidetree-go/pkg/versions/1_0/operationparser"
 )
@@ -32,6 +34,8 @@ var patchKinds = map[string]string{
 	"add-also-known-as":    `{"action":"add-also-known-as","uris":["https://aka.example/"]}`,
 	"remove-also-known-as": `{"action":"remove-also-known-as","uris":["https://aka.example/"]}`,
 	// (not in kindOrder) sixty numbers whose canonical text, 100000000000000000000, is five times as long as the spelling 1e20
+	// (not in kindOrder) strings with characters that JSON writers other than JCS escape (& < > U+2028 U+2029): sizes are defined on the canonical form
+	"html-characters": `{"action":"add-services","services":[{"id":"s9","type":"T","serviceEndpoint":"https://s.example/?a=1&b=2&c=<3>&d=e f "}]}`,
 	"json-numbers": `{"action":"ietf-json-patch","patches":[{"op":"add","path":"/n","value":[` + strings.TrimSuffix(strings.Repeat("1e20,", 60), ",") + `]}]}`,
 }
 
@@ -133,6 +137,7 @@ func Run(r *core.Run) {
 		if typ != "deactivate" {
 			// the same request as it may arrive on the wire: numbers in exponent form, so that the request is shorter than its own
 			// canonical delta (all size limits are defined on what they name: the request as received, the delta in canonical form)
+			addReq(fmt.Sprintf("valid/%s/html-characters", typ), typ, k, "html-characters", mk(typ, k, "html-characters", 18, 18, nil))
 			wire := mk(typ, k, "json-numbers", 18, 18, nil)
 			compact := bytes.ReplaceAll(ops.Bytes(wire), []byte("100000000000000000000"), []byte("1e20"))
 			reqs = append(reqs, reqCase{fmt.Sprintf("valid/%s/numbers-in-exponent-form", typ), typ, k, "json-numbers", wire, compact})
@@ -207,6 +212,15 @@ func Run(r *core.Run) {
 			mut("key-without-kty", v, func(m M) { resign(m, k, nil, func(p M) { delete(p[keyName].(M), "kty") }) })
 			mut("key-without-crv", v, func(m M) { resign(m, k, nil, func(p M) { delete(p[keyName].(M), "crv") }) })
 			mut("key-without-x", v, func(m M) { resign(m, k, nil, func(p M) { delete(p[keyName].(M), "x") }) })
+			// a well-formed RSA key: it has no curve at all, so it is never on the list of allowed curves (the reveal value is the
+			// one the library itself computes for this JWK, so that no other rule refuses the request first)
+			mut("key-is-rsa", v, func(m M) {
+				rsa := &libjws.JWK{Kty: "RSA", N: strings.Repeat("u7", 171), E: "AQAB"}
+				resign(m, k, nil, func(p M) { p[keyName] = M{"kty": "RSA", "n": rsa.N, "e": rsa.E} })
+				if rv, err := commitment.GetRevealValue(rsa, 18); err == nil {
+					m["revealValue"] = rv
+				}
+			})
 			mut("nonce-wrong-size", v, func(m M) {
 				resign(m, k, nil, func(p M) { p[keyName].(M)["nonce"] = "AAAA" })
 				m["revealValue"] = ops.Reveal(k.WithNonce("AAAA"), 18)
